@@ -180,8 +180,10 @@ template<typename Scalar, size_t DIM>
 VectorOfEigenVector<typename RayCasting<Scalar, DIM>::CellIndexes>
 RayCasting<Scalar, DIM>::cast(const PointType & originPoint, const PointType & endPoint)
 {
+  // endPoint may be the reference returned by getOriginPoint(): copy it before the origin moves
+  const PointType end = endPoint;
   setOriginPoint(originPoint);
-  return cast(endPoint);
+  return cast(end);
 }
 
 // TODO(Jean) factoriser en utilisant const expr if
